@@ -237,7 +237,10 @@ def _build_case(run, rng, name, field, flags, ndocs, schema, storage):
                 qs.append({"q": null, "text": text, "obs": [{"kind": "error", "path": "process_text(mode=query)",
                                                              "err": type(ex).__name__, "msg": str(ex)[:200]}]})
             if qtoks:
-                ask({"op": "and", "kids": [{"op": "term", "f": "f", "t": [tid(t)], "b4": 4} for t in qtoks], "b4": 4},
+                # (the model's conjunction lists each distinct token once - only membership is judged, and the sum of
+                # the scores of a long text's repeated tokens leaves TLC's 32-bit integers)
+                ask({"op": "and", "kids": [{"op": "term", "f": "f", "t": [tid(t)], "b4": 4}
+                                           for t in sorted(set(qtoks), key=qtoks.index)], "b4": 4},
                     query.And([query.Term("f", t) for t in qtoks]), dn, "And(query-time tokens)")
             # (3) the parser's reading of the document's own words
             # (only where the analyzer makes one token per word: a word of a bigram, keyword or id field
